@@ -12,7 +12,10 @@ RULE = ("target strings by class (dotted IPv4, IPv4 CIDR /0../32 aligned and una
         "sharing or not sharing first and last address, duplicates, host+net, adjacent siblings, covering blocks, comments, "
         "blanks, one refused line in a sixth of them) through the real parseExcludeFile + cidranger + filter stage, "
         "membership asked for every address of a /20../32 and at first-1/first/last/last+1 of every entry; end to end: arp/icmp/tcp/udp/tcp fin/socks/elastic/docker with "
-        "IPv6, mapped and garbage targets in a network namespace with a wire log; non-trivial = accepted target / complete or prefix walk / "
+        "IPv6, mapped and garbage targets in a network namespace with a wire log; exclusion FILES through the real option parsing "
+        "of every packet command (arp, icmp, udp, tcp, tcp syn/fin/null/xmas, tcp --flags) and of socks/elastic/docker: valid "
+        "entries plus one invalid / IPv6 / over-long line combined with -i, --srcmac, -r (exit 1, nothing on the wire) and the "
+        "accepted counterpart (exactly the uncovered addresses on the wire); non-trivial = accepted target / complete or prefix walk / "
         "accepted exclusion file; distinct by input")
 
 CODES = {1: "ParseIPNet: accept/reject differs from the model", 2: "ParseIPNet: accepted net differs from the model",
@@ -231,6 +234,48 @@ def nested_pairs(o):
     return n
 
 
+def judge_e2e(o):
+    """refuse cases: exit status 1 and nothing on the wire; exclude-ok cases: exactly the uncovered addresses probed"""
+    argv = " ".join(a if len(a) < 70 else a[:67] + "..." for a in o["argv"])
+    if o["class"].startswith("exclude-ok"):
+        from checks import c01
+        return c01.judge_e2e(o)
+    what = "the target"
+    if o["class"].startswith("badexclude"):
+        what = "the exclusion file (it has valid entries and one %s line)" % {"invalid": "invalid", "ipv6": "IPv6", "overlong": "over-long"}.get(o.get("bad"), "bad")
+    if o["nframes"]:
+        fb = bytes.fromhex(o["frames"])
+        first = fb[:6]
+        return "sx %s: %s must be refused, but %d frame(s) reach the wire (first: ethertype %04x towards %s), exit status %d" % (
+            argv, what, o["nframes"], int.from_bytes(first[:2], "big"), dotted(int.from_bytes(first[2:], "big")), o["rc"])
+    if o["rc"] == 0:
+        return "sx %s: exits with status 0 instead of refusing %s" % (argv, what)
+    if o["rc"] != 1:
+        return "sx %s: ends with status %d: %s" % (argv, o["rc"], (o.get("stderr") or "")[-200:])
+    return None
+
+
+def judge_chain(o):
+    """a generator chain with an exclusion list: no covered address probed, no uncovered one lost"""
+    import collections
+    from checks import c01
+    why = c01.spec_on_impl(o)
+    if not why:
+        return None
+    pb = hb(o.get("probes"))
+    got = collections.Counter(pb[i:i + 6] for i in range(0, len(pb), 6))
+    extra = got - c01.denote(o)
+    nets = o.get("nets") or []
+    for k in sorted(extra):
+        x = int.from_bytes(k[:4], "big")
+        for b, p in nets:
+            if (x >> (32 - p)) == (b >> (32 - p)):
+                return "%s (%s): %s is covered by the exclusion entry %s/%d but is probed (port %d); exclusion list %s" % (
+                    o["class"], o.get("source") or "subnet /%s" % o.get("net_k"), dotted(x), dotted(b), p,
+                    int.from_bytes(k[4:], "big"), ["%s/%d" % (dotted(b2), p2) for b2, p2 in nets])
+    return why
+
+
 def key_of(o):
     if o["kind"] == "parse":
         return ("parse", o["s"])
@@ -364,7 +409,7 @@ def run(ctx):
             ctx.broken.append(("correspondence: the sx binary does not build", out[-1500:]))
         else:
             ok, _ = ctx.harness_run("c01", ["-e2e", sx, "-e2eset", "refuse", "-out", "e2e.jsonl", "-seed", ctx.seed,
-                                            "-ne2e", 11 if quick else 120], timeout=3000)
+                                            "-ne2e", 28 if quick else 200], timeout=3000)
             if ok:
                 e2e = ctx.read_jsonl(os.path.join(ctx.work, "e2e.jsonl"))
         for idx, o in enumerate(e2e):
@@ -373,16 +418,7 @@ def run(ctx):
                 continue
             ctx.count("e2e:" + o["class"], ("e2e", idx), nontrivial=True,
                       sample={"kind": "e2e", "argv": " ".join(o["argv"])[-120:], "frames": o["nframes"], "exit": o["rc"]})
-            why = None
-            if o["nframes"]:
-                fb = bytes.fromhex(o["frames"])
-                first = fb[:6]
-                why = "sx %s: %d frame(s) reach the wire (first: ethertype %04x towards %s)" % (
-                    " ".join(o["argv"]), o["nframes"], int.from_bytes(first[:2], "big"), dotted(int.from_bytes(first[2:], "big")))
-            elif o["rc"] == 0:
-                why = "sx %s: exits with status 0 instead of refusing the target" % " ".join(o["argv"])
-            elif o["rc"] not in (1,):
-                why = "sx %s: ends with status %d: %s" % (" ".join(o["argv"]), o["rc"], (o.get("stderr") or "")[-200:])
+            why = judge_e2e(o)
             if why:
                 c = "e2e:" + o["class"]
                 per_class[c] = per_class.get(c, 0) + 1
@@ -391,9 +427,37 @@ def run(ctx):
                                                              "input": {"kind": "e2e", "index": idx, "seed": ctx.seed, "argv": o["argv"]},
                                                              "observed": {k: v for k, v in o.items() if k != "frames"},
                                                              "replay_cmd": "bin/check C02 --replay <this file>"})
-                    ctx.findings.append({"key": "e2e:" + o["argv"][-1], "what": why, "replay": path})
+                    k = "e2e:" + (o["class"] + ":" + o.get("opt", "") if o.get("opt") else o["argv"][-1])
+                    ctx.findings.append({"key": k, "what": why, "replay": path})
+    # the generator chains of EVERY command family with an exclusion list (tcp/udp/icmp/arp scan methods, the generic
+    # engine of socks/docker/elastic; subnet, pairs file, address file x ports): nothing covered is probed, nothing
+    # uncovered is lost
+    chains = []
+    if rows and ctx.harness_build("c01"):
+        ok, _ = ctx.harness_run("c01", ["-out", "chains.jsonl", "-seed", ctx.seed + 11, "-nports", 0, "-nnested", 0,
+                                        "-nchain", 90 if quick else 3000, "-forcefilter"], timeout=3000)
+        if ok:
+            chains = ctx.read_jsonl(os.path.join(ctx.work, "chains.jsonl"))
+    for o in chains:
+        ctx.count("chain:" + o["class"], ("chain", o["case_seed"]), nontrivial=o["nprobes"] >= 1,
+                  sample={"kind": "chain", "class": o["class"], "exclusion": [[dotted(b), p] for b, p in (o.get("nets") or [])][:4],
+                          "lines": o.get("nlines"), "probes": o.get("nprobes")})
+        why = judge_chain(o)
+        if why:
+            c = "chain:" + o["class"]
+            per_class[c] = per_class.get(c, 0) + 1
+            if per_class[c] <= 2:
+                small = {k: v for k, v in o.items() if k not in ("out", "probes", "lines_enc", "cache_enc", "pairs", "draws")}
+                path = ctx.write_replay("chain-%d" % o["case_seed"], {
+                    "property": "C02", "what": why, "input": {"kind": "chain", "case_seed": o["case_seed"], "big": bool(o.get("big"))},
+                    "observed": small, "replay_cmd": "bin/check C02 --replay <this file>"})
+                ctx.findings.append({"key": "chain:%s:exclude" % o["class"], "what": why, "replay": path})
     if per_class:
         ctx.info.append("failing inputs per class: %s" % json.dumps(per_class))
+    if model_ok and chains and ctx.coq_model(["Spec/C01.vo"]):
+        from checks import c01, tgtlib
+        tgtlib.evaluate(ctx, chains, c01.case_term, "From SX Require Import Base.Bytes Model.IPNet Model.Targets Spec.C13 Spec.C01.",
+                        8 if quick else 32, c01.describe, c01.CODES)
     if model_ok and rows:
         nshards = 16 if quick else 64
         # balance shards by payload size
@@ -424,6 +488,15 @@ def replay(ctx, path):
     if not i:
         print(json.dumps(r, indent=1))
         return 1
+    if i["kind"] == "chain":
+        if not ctx.harness_build("c01"):
+            return 1
+        arg = "chain:%d" % i["case_seed"] + (":big" if i.get("big") else "") + ":filter"
+        ctx.harness_run("c01", ["-out", "one.jsonl", "-replay", arg], timeout=600)
+        o = ctx.read_jsonl(os.path.join(ctx.work, "one.jsonl"))[0]
+        why = judge_chain(o)
+        print("replay %s: %s" % (arg, why or "property holds on this input"))
+        return 1 if why else 0
     if i["kind"] == "e2e":
         if not ctx.harness_build("c01"):
             return 1
@@ -431,10 +504,10 @@ def replay(ctx, path):
         rc, out = verif.sh(["go", "build", "-o", sx, "."], env=verif.GOENV, cwd=verif.REPO, timeout=900)
         ctx.harness_run("c01", ["-e2e", sx, "-e2eset", "refuse", "-out", "e2e.jsonl", "-seed", i["seed"], "-ne2e", i["index"] + 1], timeout=600)
         o = ctx.read_jsonl(os.path.join(ctx.work, "e2e.jsonl"))[i["index"]]
-        bad = o["nframes"] > 0 or o["rc"] != 1
-        print("replay sx %s: %d frame(s) on the wire, exit status %d%s" % (" ".join(o["argv"]), o["nframes"], o["rc"],
-                                                                           "" if bad else " (property holds on this input)"))
-        return 1 if bad else 0
+        why = judge_e2e(o)
+        print("replay e2e #%d: %s" % (i["index"], why or "sx %s: %d frame(s) on the wire, exit status %d (property holds on this input)" % (
+            " ".join(o["argv"])[:300], o["nframes"], o["rc"])))
+        return 1 if why else 0
     if not ctx.harness_build("c02"):
         return 1
     if i["kind"] == "parse":
